@@ -50,7 +50,7 @@ fn support(ctx: usize) -> Vec<ProjFile> {
     v
 }
 
-fn observed(imports: &[usize], decls: &[usize], body: usize) -> Document {
+fn observed(imports: &[usize], decls: &[usize], body: usize, ctx: usize) -> Document {
     let mut item = Item::new(ItemKind::Parcelable, "Obs");
     let mut fields: Vec<Ty> = vec![
         Ty::custom("Used"),
@@ -60,6 +60,11 @@ fn observed(imports: &[usize], decls: &[usize], body: usize) -> Document {
         Ty::custom("d.XQ"),
         Ty::custom("e.Part"),
     ];
+    if ctx == 1 {
+        // in the second context nothing is written `d.XQ`: the imports d.XQ / a.d.XQ are unused
+        // even where the body uses the declaration `Q` (a textual suffix of `XQ`)
+        fields.remove(4);
+    }
     if body >= 2 {
         // size dimension: the import d.Deep is used only 20 levels down
         let mut t = Ty::custom("Deep");
@@ -93,7 +98,7 @@ fn observed(imports: &[usize], decls: &[usize], body: usize) -> Document {
 
 fn make_case(imports: &[usize], decls: &[usize], body: usize, ctx: usize, h: History, commented: bool) -> Case {
     let mut files = support(ctx);
-    files.push(ProjFile::from_doc_styled("obs", observed(imports, decls, body), commented));
+    files.push(ProjFile::from_doc_styled("obs", observed(imports, decls, body, ctx), commented));
     let oi = files.len() - 1;
     let exp = expect_observed(&files, oi);
     let doc = files[oi].doc.as_ref().unwrap();
